@@ -60,6 +60,11 @@ CHECKS = {
    "Millions of generated queries over graphs built through the public gossip API (2-40 nodes, parallel channels, cycles, per-direction enabled/disabled/missing, zero to extreme fees, capacities present or not), with hand-built first hops, route hints, blinded tails, generated amounts at every limit +-1, path-count / path-length / CLTV / fee caps, excluded channels and scorers with generated history: every returned route is checked by an independent validator (connectivity, usable directions, per-hop minimum and jointly-counted maximum / capacity / first-hop limit, BOLT-7 fee owed to every forwarding node, CLTV deltas and caps, delivered value without a superfluous part, fee cap, path length); when the harness's own search finds a single path with strong slack the router must not report failure. Search, not proof.",
    "Completeness is asserted only in the strong-slack regime (no usable edge near binding after the saturation shift, amount x ppm far below 2^64); in-flight HTLCs are passed through the scorer wrapper only; trampoline routes are not generated. Listed known findings: first-hop peer that is also a blinded-path introduction node (stale payer entry), max_final_value rounding (hop carries a few msat above its maximum), reachable unreachable!() when merged MPP parts overflow amount x ppm. One defect repaired in /repo (a7dbe7e).",
    "DESIGN.md §6 C16"),
+ "C10": ("netsim", "fault_enumeration",
+   "stateful property-based testing with crash injection: generated payment flows with harness-owned persistence, manager snapshots at generated persistence points, restarts from generated (snapshot lag, durable-or-landed monitor) combinations; plus enumeration of EVERY crash position x node x snapshot/monitor choice for generated short flows",
+   "Pair / line / diamond worlds run generated payment flows with asynchronous persistence; the ChannelManager is serialized at generated moments; a generated node crashes at a generated position (possibly again during recovery) and restarts from a generated earlier manager snapshot and, per channel, the durable monitor image or the latest written one; the world is then reconnected, payments resolved and the chain mined until every closed channel is resolved. Checked over the concatenated history: deserialization succeeds; channels whose monitor provably ran ahead of the manager are closed as OutdatedChannelManager, never resumed; the revocation rules hold across restarts; every broadcast is consensus-valid for the next block; PaymentSent is truthful, PaymentFailed is not reported while the HTLC is live, terminal events are never contradicted; a claim acknowledged to the recipient reaches PaymentSent at the sender. The enumerated part tries every crash point of each explored short flow (exhaustive over crash points of those flows, sampled over flows).",
+   "Crash points are between harness operations (one or a few durable writes each), not inside a library call; liveness is decided at a bounded horizon (400 blocks); reorgs are not combined with restarts. One listed known finding (PaymentFailed after PaymentSent when restarting from a manager older than the fulfil with a monitor that already forgot the HTLC — documented by the library as a rare case); one defect of this family repaired in /repo.",
+   "DESIGN.md §6 C10"),
 }
 
 NOT_YET = {
